@@ -326,6 +326,9 @@ func (m *manager) validateRestart(chst datatransfer.ChannelState) (datatransfer.
 	chv := chst.Voucher()
 
 	processor, _ := m.validatedTypes.Processor(chv.Type)
+	if processor == nil {
+		return datatransfer.ValidationResult{}, fmt.Errorf("unknown voucher type: %s", chv.Type)
+	}
 	validator := processor.(datatransfer.RequestValidator)
 
 	return validator.ValidateRestart(chst.ChannelID(), chst)
